@@ -201,6 +201,8 @@ def check_fixed_step_run(model, T, dt, dts, solver, vectorize, cutoff=0.0, only_
     if len(use) and not np.allclose(np.asarray(df.index, dtype=float), times[use], rtol=1e-9, atol=1e-12):
         fails.append(dict(clause="run: index holds the times k*sampling step", observed=list(map(float, df.index[:4])),
                           expected=list(map(float, times[use][:4]))))
+    if len(df.index) == 0:
+        return fails          # every row lies before the cut-off: nothing to compare
     for key, path in outputs.items():
         if only_vars is not None and path not in only_vars:
             continue
@@ -402,7 +404,7 @@ def snapshot_template(tpl):
 
 READ_ONLY_OPS = ["get_nodes", "get_edges", "get_edge", "collect_edges", "get_node_template", "getitem", "to_yaml", "deepcopy",
                  "update_template", "get_run_func", "get_jacobian_func", "run", "derive_op_plain", "derive_op_vars", "derive_node",
-                 "run_inputs"]
+                 "run_inputs", "derive_op_vars_dict", "compile_sibling_with_override"]
 
 
 def do_read_only(tpl, model, op):
@@ -440,7 +442,17 @@ def do_read_only(tpl, model, op):
     elif op == "run":
         tpl.run(simulation_time=0.2, step_size=0.05, solver="euler", outputs={"o": mdl.state_vars(model)[0]}, vectorize=False,
                 verbose=False, clear=True, in_place=False, float_precision="float64")
-    elif op in ("derive_op_plain", "derive_op_vars", "derive_node"):
+    elif op == "compile_sibling_with_override":
+        # ANOTHER circuit built from the same OperatorTemplate object, whose node overrides a value, is compiled (caches kept, the
+        # default of get_run_func): neither template is touched and the first one's results must not change
+        from pyrates import CircuitTemplate, NodeTemplate
+        nt = tpl.get_node_template(first)
+        op0 = next(iter(nt.operators))
+        consts = [k for k, v in op0.variables.items() if not isinstance(v, str) and not (isinstance(v, dict) and v.get("vtype") != "constant")]
+        sib = CircuitTemplate(name="sibling", nodes={"s1": NodeTemplate(name="sibling_node", operators={op0: {consts[-1]: 7.5}}, path=None)})
+        sib.get_run_func("f_sib", step_size=1e-3, backend="default", vectorize=False, verbose=False, clear=False, in_place=False,
+                         float_precision="float64", file_name="sib_mod")
+    elif op in ("derive_op_plain", "derive_op_vars", "derive_node", "derive_op_vars_dict"):
         # loading / building a DERIVED template must not touch its base
         nt = tpl.get_node_template(first)
         for cand in nodes:                      # prefer a node template that carries per-node overrides
@@ -449,12 +461,16 @@ def do_read_only(tpl, model, op):
                 nt = nt_c
                 break
         op0 = next(iter(nt.operators))
-        consts = [k for k, v in op0.variables.items() if not isinstance(v, str)]
+        consts = [k for k, v in op0.variables.items() if not isinstance(v, str) and not (isinstance(v, dict) and v.get("vtype") != "constant")]
         if op == "derive_op_plain":
             op0.update_template(name="derived_plain", equations={"replace": {consts[0]: "0.5"}})
         elif op == "derive_op_vars":
             op0.update_template(name="derived_vars", equations={"replace": {consts[0]: "0.5"}},
                                 variables={consts[-1]: 9.0} if len(consts) > 1 else {next(iter(op0.variables)): "output(0.1)"})
+        elif op == "derive_op_vars_dict":
+            # the update given in the explicit dictionary form of a variable definition
+            op0.update_template(name="derived_vars_dict",
+                                variables={consts[-1]: {"vtype": "constant", "value": 9.0, "dtype": "float", "shape": (1,)}})
         else:
             nt.update_template(name="derived_node", operators={op0: {consts[-1]: 7.5}})
     elif op == "run_inputs":
@@ -855,6 +871,26 @@ def check_frontends(model, route, vectorize, seed=0, style=0):
             t0 = CircuitTemplate.from_yaml(mdl.write_yaml(model, style=style))
             t0.to_yaml("rt2/dumped.yaml")
             tpl = CircuitTemplate.from_yaml(f"rt2/dumped/{t0.name}")
+        elif route in ("python-list-update", "python-list-update-roundtrip"):
+            # the Python route the documentation shows: node templates defined by a LIST of operators (no overrides), per-node values
+            # set afterwards with update_var; (…-roundtrip: then written to YAML and loaded again)
+            import json as _json
+            bare = _json.loads(_json.dumps(model))
+            overs = []
+
+            def strip(mm, prefix):
+                for lab, nd in mm.get("nodes", {}).items():
+                    for k_, v_ in (nd.pop("over", None) or {}).items():
+                        overs.append((f"{prefix}{lab}/{k_}", v_))
+                for lab, sub in mm.get("circuits", {}).items():
+                    strip(sub, f"{prefix}{lab}/")
+            strip(bare, "")
+            tpl = mdl.build_templates(bare, style=style, share_nodes=False)
+            for path_, val_ in overs:
+                tpl.update_var(node_vars={path_: val_})
+            if route.endswith("roundtrip"):
+                tpl.to_yaml("rt3/dumped.yaml")
+                tpl = CircuitTemplate.from_yaml(f"rt3/dumped/{tpl.name}")
         else:
             raise ValueError(route)
         comp = compile_model(model, vectorize=vectorize, tpl=tpl)
